@@ -17,10 +17,10 @@ Specification: Spec/Outputs.lean (byte templates), Spec/Bip32.lean, Spec/KeyExpr
   (`keyAt`: the key a key expression denotes at index i; `selectPath`: BIP389 alternative j).
 
 Result that is NOT a theorem because the code does not have the property (see the `_full`
-definitions and their refutations): a sorted multisig whose list contains two keys with the SAME
+definition and its refutation): a sorted multisig whose list contains two keys with the SAME
 BIP67 sort key but different pushes (one key listed compressed and uncompressed) depends on the
-listing order; `into_single_descriptors` silently truncates when the first multipath key has
-fewer alternatives than a later one.
+listing order.  (`into_single_descriptors` used to truncate silently when the first multipath
+key had fewer alternatives than a later one; fixed in /repo, T4 is now at full strength.)
 -/
 import MsVerif.Lemmas.SortKeys
 import MsVerif.Lemmas.OutputsSer
@@ -416,44 +416,13 @@ theorem split_single (d : KDesc (DPK X P)) (h : d.isMultipath = false) :
     simpa using this
   simp [this]
 
-/-- the first multipath key, in `for_each_key` order, and its number of alternatives -/
-def firstArity (d : KDesc (DPK X P)) : Option Nat := (d.keysPre.find? DPK.isMultipath).bind arity
-
-/-- T4 (what the code does): if NO multipath key has fewer alternatives than the FIRST one
-(`n > 0` of them), the result is exactly the `n` descriptors obtained by selecting alternative
-`j = 0 … n-1` in every multipath key (`KDesc.select`, i.e. `mapKeys (selectPath j)`) -/
-theorem split_selects_each_alternative (d : KDesc (DPK X P)) (n : Nat)
-    (hfirst : firstArity d = some n) (hn : 0 < n)
-    (hge : ∀ k ∈ d.keysPre, ∀ m, arity k = some m → n ≤ m) :
-    d.intoSingleDescriptors = .ok ((List.range n).map d.select) := by
-  unfold KDesc.intoSingleDescriptors
-  unfold firstArity at hfirst
-  cases hf : d.keysPre.find? DPK.isMultipath with
-  | none => simp [hf] at hfirst
-  | some k0 =>
-    have hmulti := List.find?_some hf
-    cases k0 with
-    | single o key => simp [DPK.isMultipath] at hmulti
-    | xpub o x p wc => simp [DPK.isMultipath] at hmulti
-    | multi o x paths wc =>
-      simp only [hf, Option.bind_some, arity, Option.some.injEq] at hfirst
-      subst hfirst
-      have hne : paths.isEmpty = false := by
-        cases paths with
-        | nil => simp at hn
-        | cons _ _ => rfl
-      simp only [hne, Bool.false_eq_true, if_false]
-      exact splitLoop_ok d _ (fun j hj k hk m hm => by
-        have := hge k hk m hm
-        have := List.mem_range.mp hj
-        omega)
-
-/-- T4, the intended case: all multipath keys have the same number `n` of alternatives -/
+/-- T4: when all multipath keys have the same number `n > 0` of alternatives, the result is
+exactly the `n` descriptors obtained by selecting alternative `j = 0 … n-1` in every multipath
+key (`KDesc.select j = mapKeys (selectPath j)`), in this order -/
 theorem split_uniform (d : KDesc (DPK X P)) (n : Nat) (hm : d.isMultipath = true) (hn : 0 < n)
     (hall : ∀ k ∈ d.keysPre, ∀ m, arity k = some m → m = n) :
     d.intoSingleDescriptors = .ok ((List.range n).map d.select) := by
-  apply split_selects_each_alternative d n _ hn (fun k hk m hm' => by rw [hall k hk m hm']; omega)
-  unfold firstArity
+  unfold KDesc.intoSingleDescriptors
   obtain ⟨k, hk, hkm⟩ := List.any_eq_true.mp hm
   cases hf : d.keysPre.find? DPK.isMultipath with
   | none => exact absurd hkm (by simpa using List.find?_eq_none.mp hf k hk)
@@ -464,8 +433,20 @@ theorem split_uniform (d : KDesc (DPK X P)) (n : Nat) (hm : d.isMultipath = true
     | single o key => simp [DPK.isMultipath] at hmulti
     | xpub o x p wc => simp [DPK.isMultipath] at hmulti
     | multi o x paths wc =>
-      simp only [Option.bind_some, arity, Option.some.injEq]
-      exact hall _ hmem _ rfl
+      have hlen : paths.length = n := hall _ hmem _ rfl
+      have hne : paths.isEmpty = false := by
+        cases paths with
+        | nil => simp at hlen; omega
+        | cons _ _ => rfl
+      have hany : d.keysPre.any (arityNe paths.length) = false := by
+        rw [List.any_eq_false]
+        intro k' hk' hne'
+        obtain ⟨m, hm', hmn⟩ := (arityNe_iff _ k').mp hne'
+        exact hmn (by rw [hall k' hk' m hm', hlen])
+      rw [hlen] at hany
+      simp only [hne, hlen, hany, Bool.false_eq_true, if_false]
+      exact splitLoop_ok d _ (fun j hj k' hk' m hm' => by
+        rw [hall k' hk' m hm']; exact List.mem_range.mp hj)
 
 example :
     let d : KDesc (DPK Nat Nat) := ⟨.wsh (.andV (.verify (.check (.pkK 0))) (.check (.pkK 1))),
@@ -481,53 +462,61 @@ example :
   simp only [List.mem_cons, List.not_mem_nil, or_false] at hk
   rcases hk with rfl | rfl <;> simp [arity] at hm <;> omega
 
-/-- T4: a multipath key with FEWER alternatives than the first one is rejected
-(`MultipathDescLenMismatch`) -/
-theorem split_rejects_shorter (d : KDesc (DPK X P)) (n : Nat) (hfirst : firstArity d = some n)
-    (k : DPK X P) (hk : k ∈ d.keysPre) (m : Nat) (hm : arity k = some m) (hlt : m < n) :
+/-- T4, full strength: two multipath keys with DIFFERENT numbers of alternatives anywhere in the
+descriptor (whichever comes first) are rejected with `MultipathDescLenMismatch`.  (`hne`: a
+multipath key has at least one alternative — the invariant of `DerivPaths::new`.) -/
+theorem split_rejects_mismatch (d : KDesc (DPK X P))
+    (hne : ∀ k ∈ d.keysPre, arity k ≠ some 0)
+    (k k' : DPK X P) (m m' : Nat) (hk : k ∈ d.keysPre) (hk' : k' ∈ d.keysPre)
+    (hm : arity k = some m) (hm' : arity k' = some m') (hdiff : m ≠ m') :
     d.intoSingleDescriptors = .error .lenMismatch := by
   unfold KDesc.intoSingleDescriptors
-  unfold firstArity at hfirst
+  have hkm : k.isMultipath = true := by
+    cases k <;> simp [arity] at hm <;> rfl
   cases hf : d.keysPre.find? DPK.isMultipath with
-  | none => simp [hf] at hfirst
+  | none => exact absurd hkm (by simpa using List.find?_eq_none.mp hf k hk)
   | some k0 =>
+    have hmem := List.mem_of_find?_eq_some hf
     have hmulti := List.find?_some hf
     cases k0 with
     | single o key => simp [DPK.isMultipath] at hmulti
     | xpub o x p wc => simp [DPK.isMultipath] at hmulti
     | multi o x paths wc =>
-      simp only [hf, Option.bind_some, arity, Option.some.injEq] at hfirst
-      subst hfirst
-      have hne : paths.isEmpty = false := by
+      have hne0 : paths.isEmpty = false := by
         cases paths with
-        | nil => simp at hlt
+        | nil => exact absurd rfl (hne _ hmem)
         | cons _ _ => rfl
-      simp only [hne, Bool.false_eq_true, if_false]
-      exact splitLoop_error d _ ⟨m, List.mem_range.mpr hlt, k, hk, m, hm, Nat.lt_irrefl m⟩
+      have hany : d.keysPre.any (arityNe paths.length) = true := by
+        rw [List.any_eq_true]
+        by_cases h1 : m = paths.length
+        · exact ⟨k', hk', (arityNe_iff _ k').mpr ⟨m', hm', by omega⟩⟩
+        · exact ⟨k, hk, (arityNe_iff _ k).mpr ⟨m, hm, h1⟩⟩
+      simp only [hne0, hany, Bool.false_eq_true, if_false, if_true]
 
-/-- the full-strength statement "mismatching arities are always rejected" … -/
-def split_rejects_mismatch_full : Prop :=
-  ∀ (d : KDesc (DPK Nat Nat)) (k k' : DPK Nat Nat) (m m' : Nat), k ∈ d.keysPre → k' ∈ d.keysPre →
-    arity k = some m → arity k' = some m' → m ≠ m' → ∃ e, d.intoSingleDescriptors = .error e
-
-/-- … is FALSE for the code as it is: when the first multipath key has 2 alternatives and a later
-one 3, `into_single_descriptors` returns 2 descriptors and silently drops the third alternative
-(reachable from text: `tr(X/<0;1;2>/*,pk(Y/<0;1>/*))` parses, the leaf key comes first). -/
-theorem split_truncates : ¬ split_rejects_mismatch_full := by
-  intro h
-  let k0 : DPK Nat Nat := .multi none 1 [[.normal 0], [.normal 1]] .unhardened
-  let k1 : DPK Nat Nat := .multi none 0 [[.normal 0], [.normal 1], [.normal 2]] .unhardened
-  let d : KDesc (DPK Nat Nat) :=
-    ⟨.tr 200 [(0, .check (.pkK 201))], fun a => if a = 200 then some k1 else if a = 201 then some k0 else none⟩
-  have hkeys : d.keysPre = [k0, k1] := by rfl
-  obtain ⟨e, he⟩ := h d k0 k1 2 3 (by rw [hkeys]; simp) (by rw [hkeys]; simp) rfl rfl (by decide)
-  have hok := split_selects_each_alternative d 2 (by unfold firstArity; rw [hkeys]; rfl) (by decide) (by
-    intro k hk m hm
-    rw [hkeys] at hk
-    simp only [List.mem_cons, List.not_mem_nil, or_false] at hk
-    rcases hk with rfl | rfl <;> simp [arity, k0, k1] at hm <;> omega)
-  rw [hok] at he
-  cases he
+/-- T4: hence the split succeeds exactly when all multipath keys have the same arity -/
+theorem split_succeeds_iff (d : KDesc (DPK X P)) (hne : ∀ k ∈ d.keysPre, arity k ≠ some 0) :
+    (∃ ds, d.intoSingleDescriptors = .ok ds) ↔
+      ∀ k ∈ d.keysPre, ∀ k' ∈ d.keysPre, ∀ m m', arity k = some m → arity k' = some m' → m = m' := by
+  constructor
+  · rintro ⟨ds, hds⟩ k hk k' hk' m m' hm hm'
+    by_cases h : m = m'
+    · exact h
+    · rw [split_rejects_mismatch d hne k k' m m' hk hk' hm hm' h] at hds; cases hds
+  · intro hall
+    cases hmp : d.isMultipath with
+    | false => exact ⟨_, split_single d hmp⟩
+    | true =>
+      obtain ⟨k, hk, hkm⟩ := List.any_eq_true.mp hmp
+      cases k with
+      | single o key => simp [DPK.isMultipath] at hkm
+      | xpub o x p wc => simp [DPK.isMultipath] at hkm
+      | multi o x paths wc =>
+        refine ⟨_, split_uniform d paths.length hmp ?_ ?_⟩
+        · have := hne _ hk
+          simp only [arity, ne_eq, Option.some.injEq] at this
+          omega
+        · intro k' hk' m hm
+          exact (hall _ hk k' hk' _ m rfl hm).symm
 
 /-! ## T5 — `find_derivation_index_for_spk` -/
 
